@@ -6,14 +6,21 @@
    a parsed schema are valid against it — is NOT a theorem: the ~5 kLoC generator has no model as a whole.  It is
    decided by the end-to-end oracle of harness/src/c32.rs over sampled byte strings, which FINDS invalid
    documents on the unchanged tree (known_findings.d/C32.json).  What is proved are the three mechanisms the
-   property names, over the models Smith/Names.v, Smith/Closure.v, Smith/Prune.v:
+   property names, over the models Smith/Names.v, Smith/Closure.v, Smith/Prune.v, and the depth bounds of the two
+   nesting recursions over Smith/Depth.v:
      unique type names  : C32_names_unique, C32_limited_string_valid, C32_limited_string_terminates
      implements closure : C32_closure_is_reachability, C32_closure_acyclic, C32_closure_acyclic_objects,
                           C32_closure_complete_partial (+ objects), C32_closure_fields_local
      fragment pruning   : C32_prune_exact, C32_prune_no_new_cycle, C32_prune_terminates
-   and two refutations of what the closure/backfill mechanism is meant to guarantee:
-     C32_closure_fields_refuted      : an inherited field does NOT always get the inherited type;
-     C32_closure_duplicates_refuted  : an object extension can repeat an interface the object already implements.
+     nesting depth      : C32_type_nesting_bounded, C32_selection_nesting_bounded,
+                          C32_selection_recursion_terminates over Smith/Depth.v (the depth bounds of repairs
+                          fix2-c32-3/4); the unbounded code: C32_type_nesting_old_refuted,
+                          C32_selection_recursion_old_refuted
+     no repeated interface : C32_closure_no_duplicates (+ interfaces); the code before repair fix2-c32-1 let an
+                          object extension repeat an interface (C32_closure_duplicates_old_refuted, kept over
+                          the `_old` definition)
+   and one refutation of what the closure/backfill mechanism is meant to guarantee:
+     C32_closure_fields_refuted      : an inherited field does NOT always get the inherited type.
    Full statement of C32_closure_complete (design): "after backfill every object/interface lists the transitive
    closure of its interfaces and has every inherited field with the inherited type".  The first half is
    C32_closure_complete_partial; the second half is false of the faithful model (C32_closure_fields_refuted) and of
@@ -24,7 +31,7 @@
    and is checked on the implementation by the oracle (two generations per byte string). *)
 From Coq Require Import Relations.
 From ApolloVerif Require Import Base.Chars Ast.Ast Smith.Names Smith.NamesProofs Smith.Prune Smith.PruneProofs
-  Smith.Closure Smith.ClosureProofs Smith.ClosureExamples Smith.ClosureFields.
+  Smith.Closure Smith.ClosureProofs Smith.ClosureExamples Smith.ClosureFields Smith.Depth Smith.DepthProofs.
 
 (* ---- unique type names ---- *)
 
@@ -95,8 +102,8 @@ Check C32_closure_acyclic : forall st extend name cands new_fields st',
   ClWf (cls_graph st') /\ ClAcyclic (cls_graph st').
 Print Assumptions C32_closure_acyclic.
 
-(* objects are added without a cycle test; none is needed while the object's name is no edge target and no
-   candidate (type names are unique, candidates are interfaces) *)
+(* objects: the graph stays acyclic because the object's name is no edge target and no candidate (type names
+   are unique, candidates are interfaces); the cycle test made since repair fix2-c32-1 is not needed for it *)
 Theorem C32_closure_acyclic_objects : forall st extend name cands new_fields st',
   ClWf (cls_graph st) -> ClAcyclic (cls_graph st) ->
   (forall a, ~ ClEdge (cls_graph st) a name) -> ~ In name cands ->
@@ -176,15 +183,113 @@ Check C32_closure_fields_refuted :
     cl_parents_conflict (cls_ifaces st) (cls_ifaces st) = true.
 Print Assumptions C32_closure_fields_refuted.
 
-(* an object extension may pick an interface the object already implements (self_name = None) *)
-Theorem C32_closure_duplicates_refuted :
-  exists st, cx_dup_run = Some st /\ cl_declared (cls_objs st) cx_O = [cx_A1; cx_A1] /\
+(* an object definition or extension lists no interface the object already lists, and no interface twice
+   (object_type_definition hands additional_implements the object's name since repair fix2-c32-1): over any
+   sequence of additions every declared list stays duplicate-free and inside the graph's edges *)
+Theorem C32_closure_no_duplicates : forall st extend name cands new_fields st',
+  ClWf (cls_graph st) ->
+  (forall n p, In p (cl_declared (cls_objs st) n) -> ClEdge (cls_graph st) n p) ->
+  (forall n, NoDup (cl_declared (cls_objs st) n)) ->
+  cl_add_object st extend name cands new_fields = Some st' ->
+  (forall n, NoDup (cl_declared (cls_objs st') n)) /\
+  (forall n p, In p (cl_declared (cls_objs st') n) -> ClEdge (cls_graph st') n p).
+Proof. exact cl_add_object_nodup. Qed.
+Check C32_closure_no_duplicates : forall st extend name cands new_fields st',
+  ClWf (cls_graph st) ->
+  (forall n p, In p (cl_declared (cls_objs st) n) -> ClEdge (cls_graph st) n p) ->
+  (forall n, NoDup (cl_declared (cls_objs st) n)) ->
+  cl_add_object st extend name cands new_fields = Some st' ->
+  (forall n, NoDup (cl_declared (cls_objs st') n)) /\
+  (forall n p, In p (cl_declared (cls_objs st') n) -> ClEdge (cls_graph st') n p).
+Print Assumptions C32_closure_no_duplicates.
+
+(* the same for interface definitions and extensions *)
+Theorem C32_closure_no_duplicates_interfaces : forall st extend name cands new_fields st',
+  ClWf (cls_graph st) ->
+  (forall n p, In p (cl_declared (cls_ifaces st) n) -> ClEdge (cls_graph st) n p) ->
+  (forall n, NoDup (cl_declared (cls_ifaces st) n)) ->
+  cl_add_interface st extend name cands new_fields = Some st' ->
+  (forall n, NoDup (cl_declared (cls_ifaces st') n)) /\
+  (forall n p, In p (cl_declared (cls_ifaces st') n) -> ClEdge (cls_graph st') n p).
+Proof. exact cl_add_interface_nodup. Qed.
+Check C32_closure_no_duplicates_interfaces : forall st extend name cands new_fields st',
+  ClWf (cls_graph st) ->
+  (forall n p, In p (cl_declared (cls_ifaces st) n) -> ClEdge (cls_graph st) n p) ->
+  (forall n, NoDup (cl_declared (cls_ifaces st) n)) ->
+  cl_add_interface st extend name cands new_fields = Some st' ->
+  (forall n, NoDup (cl_declared (cls_ifaces st') n)) /\
+  (forall n p, In p (cl_declared (cls_ifaces st') n) -> ClEdge (cls_graph st') n p).
+Print Assumptions C32_closure_no_duplicates_interfaces.
+
+(* the code before repair fix2-c32-1 (self_name = None for objects): an object extension could repeat an
+   interface the object already implements *)
+Theorem C32_closure_duplicates_old_refuted :
+  exists st, cx_dup_run_old = Some st /\ cl_declared (cls_objs st) cx_O = [cx_A1; cx_A1] /\
              cl_dup_implements (cls_objs st) = true.
-Proof. exact cx_dup_refutes. Qed.
-Check C32_closure_duplicates_refuted :
-  exists st, cx_dup_run = Some st /\ cl_declared (cls_objs st) cx_O = [cx_A1; cx_A1] /\
+Proof. exact cx_dup_old_refutes. Qed.
+Check C32_closure_duplicates_old_refuted :
+  exists st, cx_dup_run_old = Some st /\ cl_declared (cls_objs st) cx_O = [cx_A1; cx_A1] /\
              cl_dup_implements (cls_objs st) = true.
-Print Assumptions C32_closure_duplicates_refuted.
+Print Assumptions C32_closure_duplicates_old_refuted.
+
+(* ---- nesting depth (Smith/Depth.v: the recursions of ty.rs and selection_set.rs / field.rs / fragment.rs) ---- *)
+
+(* choose_ty: at most MAX_TY_DEPTH list / non-null wrappers, within MAX_TY_DEPTH + 1 levels of recursion, for
+   every source (repair fix2-c32-4; generate_ty is the same recursion with another leaf, sd_gen_ty_bounded) *)
+Theorem C32_type_nesting_bounded : forall (Src : Type) (draw : N -> N -> Src -> N * Src) ntypes src,
+  exists r, sd_choose_ty draw 11 (Some sd_max_ty_depth) ntypes src = r /\ r <> SdFuel /\
+            forall t s', r = SdOk (t, s') -> sd_wrappers t <= sd_max_ty_depth.
+Proof. exact (fun Src draw => @sd_choose_ty_bounded Src draw). Qed.
+Check C32_type_nesting_bounded : forall (Src : Type) (draw : N -> N -> Src -> N * Src) ntypes src,
+  exists r, sd_choose_ty draw 11 (Some sd_max_ty_depth) ntypes src = r /\ r <> SdFuel /\
+            forall t s', r = SdOk (t, s') -> sd_wrappers t <= sd_max_ty_depth.
+Print Assumptions C32_type_nesting_bounded.
+
+(* the code before the repair (no bound), over arbitrary's byte source: 501 bytes of value 1 give a type with 501
+   list wrappers, beyond the parser's recursion limit of 500 *)
+Theorem C32_type_nesting_old_refuted :
+  exists t rest, sd_choose_ty nm_int_in_range 600 None 6 (repeat 1 501) = SdOk (t, rest) /\
+                 sd_lists t = 501 /\ 500 < sd_wrappers t.
+Proof. exact sd_choose_ty_old_unbounded. Qed.
+Check C32_type_nesting_old_refuted :
+  exists t rest, sd_choose_ty nm_int_in_range 600 None 6 (repeat 1 501) = SdOk (t, rest) /\
+                 sd_lists t = 501 /\ 500 < sd_wrappers t.
+Print Assumptions C32_type_nesting_old_refuted.
+
+(* selection_set() of an operation or fragment definition: the selection sets (of fields and of inline
+   fragments) nest at most MAX_SELECTION_SET_DEPTH deep, for every schema and every source (repair fix2-c32-3) *)
+Theorem C32_selection_nesting_bounded : forall (Src : Type) (draw : N -> N -> Src -> N * Src) skip spread schema
+    fuel cur src r s',
+  sd_run draw skip spread fuel (Some sd_max_selection_set_depth) schema (SdCallSet cur 0) src = SdOk (r, s') ->
+  1 + sd_sels_depth r <= sd_max_selection_set_depth.
+Proof. exact (fun Src draw => @sd_selection_set_bounded Src draw). Qed.
+Check C32_selection_nesting_bounded : forall (Src : Type) (draw : N -> N -> Src -> N * Src) skip spread schema
+    fuel cur src r s',
+  sd_run draw skip spread fuel (Some sd_max_selection_set_depth) schema (SdCallSet cur 0) src = SdOk (r, s') ->
+  1 + sd_sels_depth r <= sd_max_selection_set_depth.
+Print Assumptions C32_selection_nesting_bounded.
+
+(* and it ends within 80 levels of the model's recursion on every schema, recursive types included, for every
+   source that answers within the requested range *)
+Theorem C32_selection_recursion_terminates : forall (Src : Type) (draw : N -> N -> Src -> N * Src) skip spread
+    schema cur src,
+  (forall lo hi s, lo <= hi -> lo <= fst (draw lo hi s) <= hi) ->
+  sd_run draw skip spread 80 (Some sd_max_selection_set_depth) schema (SdCallSet cur 0) src <> SdFuel.
+Proof. exact (fun Src draw => @sd_selection_set_terminates Src draw). Qed.
+Check C32_selection_recursion_terminates : forall (Src : Type) (draw : N -> N -> Src -> N * Src) skip spread
+    schema cur src,
+  (forall lo hi s, lo <= hi -> lo <= fst (draw lo hi s) <= hi) ->
+  sd_run draw skip spread 80 (Some sd_max_selection_set_depth) schema (SdCallSet cur 0) src <> SdFuel.
+Print Assumptions C32_selection_recursion_terminates.
+
+(* the code before the repair on `type Query { q: Query }` with an exhausted source: no result for any fuel
+   (the stack overflow of the former class operation-unbounded-selection-recursion) *)
+Theorem C32_selection_recursion_old_refuted : forall fuel,
+  sd_run sd_exhausted (fun s => s) (fun _ => None) fuel None sd_rec_schema (SdCallSet [SdComposite 0] 0) tt = SdFuel.
+Proof. exact sd_selection_set_old_diverges. Qed.
+Check C32_selection_recursion_old_refuted : forall fuel,
+  sd_run sd_exhausted (fun s => s) (fun _ => None) fuel None sd_rec_schema (SdCallSet [SdComposite 0] 0) tt = SdFuel.
+Print Assumptions C32_selection_recursion_old_refuted.
 
 (* ---- fragment pruning ---- *)
 
@@ -237,6 +342,25 @@ Example C32_closure_nonvacuous :
     cl_fields_inherited (cls_ifaces st) (cls_objs st) = true /\
     cl_acyclic (cls_graph st) = Some true.
 Proof. split; [apply cx_init_wf|]. split; [apply cx_init_wf|]. exact cx_good_facts. Qed.
+
+(* the run that repeated A1 before the repair meets the hypotheses of C32_closure_no_duplicates at every step
+   (it starts from cl_init) and now ends with `type O implements A1` + `extend type O` without `implements` *)
+Example C32_no_duplicates_nonvacuous :
+  exists st, cx_dup_run = Some st /\ cl_declared (cls_objs st) cx_O = [cx_A1] /\
+             cl_dup_implements (cls_objs st) = false.
+Proof. exact cx_dup_run_facts. Qed.
+
+(* the witnesses of the two `_old` refutations under the code as it is: ten wrappers, ten selection sets *)
+Example C32_nesting_nonvacuous :
+  (exists t rest, sd_choose_ty nm_int_in_range 11 (Some sd_max_ty_depth) 6 (repeat 1 501) = SdOk (t, rest) /\
+                  sd_wrappers t = 10) /\
+  (exists r, sd_run sd_exhausted (fun s => s) (fun _ => None) 80 (Some sd_max_selection_set_depth) sd_rec_schema
+                    (SdCallSet [SdComposite 0] 0) tt = SdOk (r, tt) /\ 1 + sd_sels_depth r = 10) /\
+  (forall lo hi s, lo <= hi -> lo <= fst (sd_exhausted lo hi s) <= hi).
+Proof.
+  split; [exact sd_choose_ty_same_bytes_bounded|]. split; [exact sd_selection_set_same_case_bounded|].
+  intros lo hi s H. cbn [sd_exhausted fst]. split; [apply N.le_refl|exact H].
+Qed.
 
 (* query { ...A }  fragment A { ...B }  fragment B { x }  fragment C { ...B } : C is pruned, A and B stay *)
 Example C32_prune_nonvacuous :
